@@ -21,6 +21,11 @@
 //   optional<T&> exist + checked: optional(), optional(nullopt), optional(U&) [binds], copy / move ctor, operator=(nullopt),
 //        = {}, copy / move / self assignment, operator=(U&) [rebinds], emplace(U&), reset, swap member, etl::swap,
 //        has_value / operator bool, operator*, operator->, all relational forms listed above.
+//   further configurations: optional<optional<int>> (nullopt / {} / inner optional / value / optional<short> construction and
+//        assignment, reset, emplace, swap, writes to the inner optional, comparisons with nullopt, inner optionals, values),
+//        optional<bool>, optional<int const>, value types that are explicitly / implicitly constructible or assignable from the
+//        source type, and the is_constructible / is_convertible / is_assignable matrix of optional<T> against std::optional<T>.
+//   Exclusion tag understood by the generator: optional.converting_assign_engaged.
 //   do NOT exist / do not compile on this tree (not part of the check): optional::value(), transform();
 //        opt > nullopt, opt <= nullopt, opt >= nullopt and the mirrored nullopt > / <= / >= opt (hard error inside the
 //        optional x value templates); for optional<T&>: value_or, and_then, or_else, converting construction / assignment
@@ -740,6 +745,375 @@ struct FloatRel {
     }
 };
 
+// ================================================================== optional<optional<int>>
+// A value type that is itself constructible / assignable from nullopt_t, {} and from what the outer optional is
+// constructible from: every form must select the same overload as std::optional<std::optional<int>> (o = nullopt and
+// o = {} disengage the OUTER optional, o = inner-optional engages it, ...).  The model is driven by the very same
+// expressions on the std types, so std's own overload resolution is the oracle.  No masking: everything is trivially copyable.
+enum NCode : std::uint32_t {
+    N_C_DEFAULT, N_C_NULLOPT, N_C_INNER_L, N_C_INNER_R, N_C_INPLACE, N_C_VALUE, N_C_COPY, N_C_MOVE, N_C_CONV,
+    N_A_NULLOPT, N_A_BRACES, N_A_INNER_L, N_A_INNER_R, N_A_VALUE, N_A_COPY, N_A_MOVE, N_A_SELF, N_A_CONV, N_RESET, N_EMPLACE, N_SWAP, N_WRITE_INNER,
+    N_Q_DEREF, N_Q_REL_NULLOPT, N_Q_REL_INNER, N_Q_REL_VALUE, N_Q_REL_SAME, N_Q_VALUE_OR, N_OBSERVE,
+    N_NCODES
+};
+constexpr std::uint32_t N_FIRST_QUERY = N_Q_DEREF;
+char const* const ncode_names[] = {"optional()", "optional(nullopt)", "optional(inner const&)", "optional(inner&&)", "optional(in_place[,v|inner])", "optional(int)", "optional(optional const&)", "optional(optional&&)",
+    "optional(optional<short>)", "=nullopt", "={}", "=inner const&", "=inner&&", "=int", "copy-assign", "move-assign", "self copy-assign", "=optional<short>", "reset", "emplace([v|inner])", "swap",
+    "write inner (*x = ...)", "operator*/->", "x rel nullopt", "x rel inner optional", "x rel int", "x rel y", "value_or(inner)", "observe"};
+
+struct Nest {
+    using EI = etl::optional<int>;
+    using SI = std::optional<int>;
+    using O  = etl::optional<EI>;
+    using M  = std::optional<SI>;
+
+    static auto show(M const& m) -> std::string { return !m.has_value() ? "disengaged" : (!m->has_value() ? "engaged{disengaged}" : "engaged{" + std::to_string(**m) + "}"); }
+    static auto show(O const& x) -> std::string { return !x.has_value() ? "disengaged" : (!x->has_value() ? "engaged{disengaged}" : "engaged{" + std::to_string(**x) + "}"); }
+    static auto compare(char const* name, O const& x, M const& m) -> std::string
+    {
+        bool same = x.has_value() == m.has_value() && static_cast<bool>(x) == m.has_value();
+        if (same && m.has_value()) { same = x->has_value() == m->has_value() && (!m->has_value() || **x == **m); }
+        return same ? "" : std::string(name) + " is " + show(x) + ", std::optional<std::optional<int>> is " + show(m);
+    }
+    static auto run(OpsCase const& k, int stats) -> std::string
+    {
+        std::string err;
+        bool nt = false, transitioned = false, inner_empty_seen = false, cmp_engaged = false;
+        struct Sandwich {
+            std::uint64_t pre{0xA5A5A5A5A5A5A5A5ULL};
+            Slot<O> a;
+            std::uint64_t mid{0x5A5A5A5A5A5A5A5AULL};
+            Slot<O> b;
+            std::uint64_t post{0xC3C3C3C3C3C3C3C3ULL};
+        } sw;
+        sw.a.make();
+        sw.b.make();
+        M ma, mb;
+        for (auto const& op : k.ops) {
+            bool tb = (op.c & 1U) != 0;
+            Slot<O>& sx = tb ? sw.b : sw.a;
+            Slot<O>& sy = tb ? sw.a : sw.b;
+            M& mx     = tb ? mb : ma;
+            M& my     = tb ? ma : mb;
+            int v     = static_cast<int>((op.c >> 1) % NVAL);
+            auto code = op.code % N_NCODES;
+            bool xe0 = mx.has_value(), ye0 = my.has_value();
+            if (code == N_WRITE_INNER && !mx.has_value()) { code = N_EMPLACE; }
+            if (code == N_Q_DEREF && !mx.has_value()) { code = N_OBSERVE; }
+            if (stats > 1) { vf::count((std::string("nop.") + ncode_names[code]).c_str()); }
+            bool is_query = code >= N_FIRST_QUERY && code != N_OBSERVE;
+            O& x = *sx.p;
+            O& y = *sy.p;
+            // the inner-optional argument: disengaged or holding 0..2
+            auto is = op.b % 4;
+            EI ei   = is == 0 ? EI() : EI(static_cast<int>(is) - 1);
+            SI si   = is == 0 ? SI() : SI(static_cast<int>(is) - 1);
+            etl::optional<short> es = is == 0 ? etl::optional<short>() : etl::optional<short>(static_cast<short>(is - 1));
+            std::optional<short> ss = is == 0 ? std::optional<short>() : std::optional<short>(static_cast<short>(is - 1));
+            switch (code) {
+            case N_C_DEFAULT: sx.make(), mx = M(); break;
+            case N_C_NULLOPT: sx.make(etl::nullopt), mx = M(std::nullopt); break;
+            case N_C_INNER_L: sx.make(std::as_const(ei)), mx = M(std::as_const(si)); break;
+            case N_C_INNER_R: sx.make(EI(ei)), mx = M(SI(si)); break;
+            case N_C_INPLACE: {
+                switch (op.a % 3) {
+                case 0: sx.make(etl::in_place), mx = M(std::in_place); break;
+                case 1: sx.make(etl::in_place, v), mx = M(std::in_place, v); break;
+                default: sx.make(etl::in_place, ei), mx = M(std::in_place, si); break;
+                }
+                break;
+            }
+            case N_C_VALUE: sx.make(v), mx = M(v); break;
+            case N_C_COPY: ((op.a & 1U) != 0 ? sx.make(y) : sx.make(std::as_const(y))), mx = M(std::as_const(my)); break;
+            case N_C_MOVE: sx.make(std::move(y)), mx = M(std::move(my)); break;
+            case N_C_CONV: sx.make(std::as_const(es)), mx = M(std::as_const(ss)); break;
+            case N_A_NULLOPT: x = etl::nullopt, mx = std::nullopt; break;
+            case N_A_BRACES: x = {}, mx = {}; break;
+            case N_A_INNER_L: x = std::as_const(ei), mx = std::as_const(si); break;
+            case N_A_INNER_R: x = EI(ei), mx = SI(si); break;
+            case N_A_VALUE: x = v, mx = v; break;
+            case N_A_COPY: ((op.a & 1U) != 0 ? (x = y) : (x = std::as_const(y))), mx = std::as_const(my); break;
+            case N_A_MOVE: x = std::move(y), mx = std::move(my); break;
+            case N_A_SELF: {
+                O const& alias = x;
+                x              = alias;
+                break;
+            }
+            case N_A_CONV: x = std::as_const(es), mx = std::as_const(ss); break;
+            case N_RESET: x.reset(), mx.reset(); break;
+            case N_EMPLACE: {
+                switch (op.a % 3) {
+                case 0: x.emplace(), mx.emplace(); break;
+                case 1: x.emplace(v), mx.emplace(v); break;
+                default: x.emplace(ei), mx.emplace(si); break;
+                }
+                break;
+            }
+            case N_SWAP: {
+                if ((op.a & 1U) != 0) {
+                    etl::swap(x, y);
+                } else {
+                    x.swap(y);
+                }
+                mx.swap(my);
+                break;
+            }
+            case N_WRITE_INNER: {
+                switch (op.a % 4) {
+                case 0: *x = etl::nullopt, *mx = std::nullopt; break;
+                case 1: *x = v, *mx = v; break;
+                case 2: x->reset(), mx->reset(); break;
+                default: x->emplace(v), mx->emplace(v); break;
+                }
+                break;
+            }
+            case N_Q_DEREF: {
+                EI& r1       = *x;
+                EI const& r2 = *std::as_const(x);
+                if (&r1 != &r2 || x.operator->() != &r1) { err = "operator* / operator-> do not refer to one object"; }
+                break;
+            }
+            case N_Q_REL_NULLOPT: {
+                O const& cx = x;
+                bool e[6]   = {cx == etl::nullopt, etl::nullopt == cx, cx != etl::nullopt, etl::nullopt != cx, cx < etl::nullopt, etl::nullopt < cx};
+                // Oracle: the definitions of [optional.nullops] applied to the std object's has_value().  libstdc++ 12 itself
+                // cannot be asked here: for a value type that is comparable with nullopt_t, g++ 12 resolves `nullopt == o` /
+                // `nullopt < o` to the optional-x-value templates (CWG 2445 ordering of reversed candidates) and answers
+                // `nullopt == optional<optional<int>>{}` with false.
+                bool h      = mx.has_value();
+                bool m[6]   = {!h, !h, h, h, false, h};
+                static char const* const nm[6] = {"x==nullopt", "nullopt==x", "x!=nullopt", "nullopt!=x", "x<nullopt", "nullopt<x"};
+                for (int i = 0; i < 6 && err.empty(); ++i) {
+                    if (e[i] != m[i]) { err = std::string("(") + nm[i] + ") is " + b2s(e[i]) + ", [optional.nullops] says " + b2s(m[i]); }
+                }
+                break;
+            }
+            case N_Q_REL_INNER: err = rel_diff("optional<optional<int>> x optional<int>", rel12(std::as_const(x), std::as_const(ei)), rel12(std::as_const(mx), std::as_const(si))); break;
+            case N_Q_REL_VALUE: err = rel_diff("optional<optional<int>> x int", rel12(std::as_const(x), v), rel12(std::as_const(mx), v)); break;
+            case N_Q_REL_SAME: err = rel_diff("optional<optional<int>> x optional<optional<int>>", rel12(std::as_const(x), std::as_const(y)), rel12(std::as_const(mx), std::as_const(my))); break;
+            case N_Q_VALUE_OR: {
+                EI got  = std::as_const(x).value_or(ei);
+                SI want = std::as_const(mx).value_or(si);
+                if (got.has_value() != want.has_value() || (want.has_value() && *got != *want)) { err = "value_or(inner) differs from std::optional"; }
+                break;
+            }
+            case N_OBSERVE:
+            default: break;
+            }
+            if (mx.has_value() != xe0 || my.has_value() != ye0) { transitioned = true; }
+            if (mx.has_value() && !mx->has_value()) { inner_empty_seen = true; }
+            if (is_query && mx.has_value()) { cmp_engaged = true; }
+            if (is_query && transitioned) { nt = true; }
+            if (err.empty()) { err = compare(tb ? "B" : "A", *sx.p, mx); }
+            if (err.empty()) { err = compare(tb ? "A" : "B", *sy.p, my); }
+            if (err.empty() && (sw.pre != 0xA5A5A5A5A5A5A5A5ULL || sw.mid != 0x5A5A5A5A5A5A5A5AULL || sw.post != 0xC3C3C3C3C3C3C3C3ULL)) { err = "canary next to the optional was overwritten"; }
+            if (!err.empty()) {
+                err = std::string("after ") + ncode_names[code] + ": " + err;
+                break;
+            }
+        }
+        if (stats > 1) {
+            vf::label("optional_nested.hist.transition_then_query", nt);
+            vf::label("optional_nested.hist.outer_engaged_inner_disengaged", inner_empty_seen);
+            vf::label("optional_nested.hist.query_on_engaged", cmp_engaged);
+        }
+        if (stats > 0 && nt) {
+            if (stats > 1) {
+                vf::nontrivial(vf::digest(k));
+            } else {
+                vf::nontrivial_count();
+            }
+        }
+        return err;
+    }
+};
+
+// ================================================================== optional<bool>, optional<int const>, explicit vs implicit
+// Stateless: one op = one self-contained scenario selected by (code, a, b); every scenario is run on the etl and on the
+// std types with the same expressions and the outcomes are compared.
+struct Ex { // only explicitly constructible from int, not assignable from int
+    int v;
+    explicit Ex(int x) noexcept : v(x) { }
+};
+struct Im { // implicitly constructible from int
+    int v;
+    Im(int x) noexcept : v(x) { } // NOLINT
+};
+struct ExA { // explicitly constructible and assignable from int
+    int v;
+    explicit ExA(int x) noexcept : v(x) { }
+    auto operator=(int x) noexcept -> ExA&
+    {
+        v = x + 100; // assignment is distinguishable from construction: std assigns through when engaged
+        return *this;
+    }
+};
+enum MCode : std::uint32_t { M_BOOL, M_CONST, M_EXPLICIT, M_TRAITS, M_NCODES };
+char const* const mcode_names[] = {"optional<bool>", "optional<int const>", "explicit / implicit value types", "constructible / convertible / assignable traits"};
+
+template <template <typename> class Opt, typename Null, typename InPlace>
+struct MiscLib {
+    Null null;
+    InPlace in_place;
+    // every function returns a printable transcript of what happened; the etl and std transcripts must be equal
+    template <typename T>
+    static auto st(Opt<T> const& o) -> std::string
+    {
+        if (!o.has_value()) { return "-"; }
+        if constexpr (requires { (*o).v; }) {
+            return std::to_string((*o).v);
+        } else {
+            return std::to_string(static_cast<int>(*o));
+        }
+    }
+    template <typename A, typename B>
+    static auto rels(A const& a, B const& b) -> std::string
+    {
+        auto r = rel12(a, b);
+        std::string s;
+        for (bool x : r) { s += x ? '1' : '0'; }
+        return s;
+    }
+    auto opt_bool(std::uint32_t a, std::uint32_t b) const -> std::string
+    {
+        auto mk = [&](std::uint32_t s) { return s % 3 == 0 ? Opt<bool>() : Opt<bool>(s % 3 == 2); };
+        Opt<bool> l = mk(a), r = mk(a / 3);
+        bool w      = (b & 1U) != 0;
+        std::string t = "l=" + st(l) + " r=" + st(r) + " has=" + b2s(l.has_value()) + " bool=" + b2s(static_cast<bool>(l)) + " vo=" + b2s(l.value_or(w));
+        t += " ll=" + rels(l, r) + " lv=" + rels(l, w);
+        t += std::string(" lnull=") + b2s(l == null) + b2s(null == l) + b2s(l != null) + b2s(l < null) + b2s(null < l);
+        Opt<bool> c(l);
+        c = w; // must store the value, never test it
+        t += " =v:" + st(c);
+        c = r;
+        t += " =r:" + st(c);
+        c = null;
+        t += " =null:" + st(c);
+        c.emplace(w);
+        t += " emplace:" + st(c);
+        Opt<bool> d(in_place, w);
+        Opt<bool> e = w;
+        t += " ctor:" + st(d) + st(e);
+        return t;
+    }
+    auto opt_const(std::uint32_t a, std::uint32_t b) const -> std::string
+    {
+        auto mk = [&](std::uint32_t s) { return s % 3 == 0 ? Opt<int const>() : Opt<int const>(static_cast<int>(s % 3) - 1); };
+        Opt<int const> l = mk(a), r = mk(a / 3);
+        int w            = static_cast<int>(b % 3);
+        std::string t    = "l=" + st(l) + " r=" + st(r) + " ll=" + rels(l, r) + " lv=" + rels(l, w) + " vo=" + std::to_string(l.value_or(w));
+        Opt<int const> c(l);
+        t += " copy:" + st(c);
+        c.emplace(w);
+        t += " emplace:" + st(c);
+        c.reset();
+        t += " reset:" + st(c);
+        Opt<int const> d(in_place, w);
+        Opt<int> from(w);
+        Opt<int const> e(from);
+        t += " ctor:" + st(d) + st(e);
+        return t;
+    }
+    auto opt_explicit(std::uint32_t a, std::uint32_t b, bool exa_engaged_ok) const -> std::string
+    {
+        int v  = static_cast<int>(b % 3);
+        bool s = (a & 1U) != 0; // start engaged?
+        std::string t;
+        {
+            Opt<Ex> o(v);
+            Opt<Ex> p(in_place, v);
+            Opt<int> src = s ? Opt<int>(v + 1) : Opt<int>();
+            Opt<Ex> q(src); // explicit converting constructor
+            t += "Ex:" + st(o) + st(p) + st(q);
+            q = o;
+            q.emplace(v + 2);
+            t += st(q);
+        }
+        {
+            Opt<Im> o = v; // implicit
+            Opt<Im> q = s ? Opt<Im>(7) : Opt<Im>();
+            q         = v; // converting assignment
+            Opt<short> src(static_cast<short>(v + 1));
+            Opt<Im> r = src; // implicit converting constructor
+            Opt<Im> u = s ? Opt<Im>(7) : Opt<Im>();
+            u         = src;
+            t += " Im:" + st(o) + st(q) + st(r) + st(u);
+        }
+        {
+            s          = s && exa_engaged_ok;
+            Opt<ExA> q = s ? Opt<ExA>(in_place, 7) : Opt<ExA>();
+            q          = v; // engaged: assigns through (v + 100); disengaged: constructs (v)
+            t += " ExA:" + st(q);
+            Opt<ExA> r = s ? Opt<ExA>(in_place, 7) : Opt<ExA>();
+            Opt<int> src(v);
+            r = src; // operator=(optional<U> const&): both engaged -> assigns through
+            t += st(r);
+            Opt<ExA> u = s ? Opt<ExA>(in_place, 7) : Opt<ExA>();
+            u          = Opt<int>(v); // operator=(optional<U>&&)
+            t += st(u);
+        }
+        return t;
+    }
+    template <typename T, typename S>
+    static auto tr() -> std::string
+    {
+        std::string r;
+        r += std::is_constructible_v<Opt<T>, S> ? 'C' : '-';
+        r += std::is_convertible_v<S, Opt<T>> ? 'I' : '-';
+        r += std::is_assignable_v<Opt<T>&, S> ? 'A' : '-';
+        return r;
+    }
+    template <typename T>
+    static auto row() -> std::string
+    {
+        return "int:" + tr<T, int>() + " int&:" + tr<T, int&>() + " short:" + tr<T, short>() + " bool:" + tr<T, bool>() + " nullopt:" + tr<T, Null>() + " nullopt const&:" + tr<T, Null const&>()
+             + " opt<int>:" + tr<T, Opt<int>>() + " opt<int> const&:" + tr<T, Opt<int> const&>() + " opt<short>:" + tr<T, Opt<short>>() + " opt<T>&:" + tr<T, Opt<T>&>() + " T:" + tr<T, T>()
+             + " T const&:" + tr<T, T const&>() + " opt<opt<int>>:" + tr<T, Opt<Opt<int>>>() + " char const*:" + tr<T, char const*>() + " double:" + tr<T, double>();
+    }
+    static auto traits(std::uint32_t a) -> std::string
+    {
+        switch (a % 8) {
+        case 0: return row<int>();
+        case 1: return row<bool>();
+        case 2: return row<Ex>();
+        case 3: return row<Im>();
+        case 4: return row<ExA>();
+        case 5: return row<Opt<int>>();
+        case 6: return row<int const>();
+        default: return row<long>();
+        }
+    }
+};
+
+struct Misc {
+    using E = MiscLib<etl::optional, etl::nullopt_t, etl::in_place_t>;
+    using S = MiscLib<std::optional, std::nullopt_t, std::in_place_t>;
+    static auto run(OpsCase const& k, int stats) -> std::string
+    {
+        E const e{etl::nullopt, etl::in_place};
+        S const s{std::nullopt, std::in_place};
+        for (auto const& op : k.ops) {
+            std::string te, ts;
+            switch (op.code % M_NCODES) {
+            case M_BOOL: te = e.opt_bool(op.a, op.b), ts = s.opt_bool(op.a, op.b); break;
+            case M_CONST: te = e.opt_const(op.a, op.b), ts = s.opt_const(op.a, op.b); break;
+            case M_EXPLICIT: {
+                // exclusion tag for a known finding: converting assignment to an ENGAGED optional whose value type
+                // distinguishes assignment from construction (the class is narrowed to exactly that)
+                bool excl = vf::ctx().excluded("optional.converting_assign_engaged");
+                if (excl && (op.a & 1U) != 0) { vf::excluded_known("optional.converting_assign_engaged"); }
+                te = e.opt_explicit(op.a, op.b, !excl), ts = s.opt_explicit(op.a, op.b, !excl);
+                break;
+            }
+            default: te = E::traits(op.a), ts = S::traits(op.a); break;
+            }
+            if (stats > 0) { vf::nontrivial_count(); }
+            if (te != ts) { return std::string(mcode_names[op.code % M_NCODES]) + ": etl [" + te + "] std [" + ts + "]"; }
+        }
+        return "";
+    }
+};
+
 // ------------------------------------------------------------------ configuration table
 struct Config {
     char const* name;
@@ -748,6 +1122,8 @@ struct Config {
     char const* const* names;
     bool ref;
     bool stateless{false}; // one op = one self-contained comparison (enumerated completely, no histories)
+    std::uint32_t na{0}, nb{0}; // stateless: sizes of the enumerated a / b domains
+    bool nest{false};
 };
 // One source, several executables: -DC07_ONLY=<i> builds only configuration i (the registry lists one harness per
 // configuration so that they compile in parallel); configuration ids in case strings are the same in every build.
@@ -770,7 +1146,9 @@ Config const configs[] = {
     {"optional<int>", C07_RUN0, NCODES, FIRST_QUERY, code_names, false},
     {"optional<NonTriv>", C07_RUN1, NCODES, FIRST_QUERY, code_names, false},
     {"optional<int&>", C07_RUN2, R_NCODES, R_FIRST_QUERY, rcode_names, true},
-    {"optional<double/float> relational incl. NaN", &FloatRel::run, F_NCODES, 0, fcode_names, false, true},
+    {"optional<double/float> relational incl. NaN", &FloatRel::run, F_NCODES, 0, fcode_names, false, true, FloatRel::NDOM, FloatRel::NDOM},
+    {"optional<optional<int>>", &Nest::run, N_NCODES, N_FIRST_QUERY, ncode_names, false, false, 0, 0, true},
+    {"optional<bool> / optional<int const> / explicit value types", &Misc::run, M_NCODES, 0, mcode_names, false, true, 9, 3},
 };
 constexpr std::uint32_t nconfigs = sizeof(configs) / sizeof(configs[0]);
 
@@ -797,6 +1175,34 @@ auto shapes(Config const& cfg, std::uint32_t code) -> std::vector<RawOp>
 {
     std::vector<RawOp> out;
     auto add = [&](std::uint32_t a, std::uint32_t b, std::uint32_t v) { out.push_back(RawOp{code, a, b, v << 1}); };
+    if (cfg.nest) {
+        switch (code) {
+        case N_C_INNER_L:
+        case N_C_INNER_R:
+        case N_C_CONV:
+        case N_A_INNER_L:
+        case N_A_INNER_R:
+        case N_A_CONV:
+        case N_Q_REL_INNER:
+        case N_Q_VALUE_OR:
+            for (std::uint32_t b = 0; b < 3; ++b) { add(0, b, 0); } // inner argument: disengaged, 0, 1
+            break;
+        case N_C_VALUE:
+        case N_A_VALUE:
+        case N_Q_REL_VALUE: add(0, 0, 0), add(0, 0, 1); break;
+        case N_C_INPLACE:
+        case N_EMPLACE: add(0, 0, 0), add(1, 0, 1), add(2, 0, 0), add(2, 2, 0); break;
+        case N_C_COPY:
+        case N_A_COPY:
+        case N_SWAP: add(0, 0, 0), add(1, 0, 0); break;
+        case N_WRITE_INNER:
+            for (std::uint32_t a = 0; a < 4; ++a) { add(a, 0, 1); }
+            break;
+        case N_OBSERVE: break;
+        default: add(0, 0, 0); break;
+        }
+        return out;
+    }
     if (!cfg.ref) {
         switch (code) {
         case C_VALUE_L:
@@ -881,18 +1287,19 @@ void vf_run(vf::Ctx& c)
             auto const& cfg = configs[ci];
             if (cfg.run == nullptr) { continue; }
             if (cfg.stateless) {
-                // every (operator family, lhs state, rhs state) over {disengaged, -1, 0, 1, 2, NaN}
+                // every (scenario / operator family, a, b): e.g. lhs and rhs state over {disengaged, -1, 0, 1, 2, NaN}
+                char const* sub = ci == 3 ? "enum_float_relational" : "enum_value_types";
                 for (std::uint32_t code = 0; code < cfg.ncodes; ++code) {
-                    for (std::uint32_t a = 0; a < FloatRel::NDOM; ++a) {
-                        for (std::uint32_t b = 0; b < FloatRel::NDOM; ++b) {
+                    for (std::uint32_t a = 0; a < cfg.na; ++a) {
+                        for (std::uint32_t b = 0; b < cfg.nb; ++b) {
                             if (!c.mine(n++)) { continue; }
                             OpsCase k;
                             k.cfg = ci;
                             k.ops.push_back(RawOp{code, a, b, 0});
-                            vf::Flight<OpsCase> fl("enum_float_relational", k);
-                            vf::eval("enum_float_relational");
+                            vf::Flight<OpsCase> fl(sub, k);
+                            vf::eval(sub);
                             auto d = run_case(k, 1);
-                            if (!d.empty()) { vf::mismatch("enum_float_relational", k, d); }
+                            if (!d.empty()) { vf::mismatch(sub, k, d); }
                         }
                     }
                 }
@@ -913,6 +1320,11 @@ void vf_run(vf::Ctx& c)
                 if (!d.empty()) { vf::mismatch("enum_transitions", k, d); }
             };
             auto setter = [&](std::uint32_t how, std::uint32_t state, std::uint32_t target) -> RawOp {
+                if (cfg.nest) { // 0 disengaged, 1 engaged{disengaged}, 2 / 3 engaged{0 / 1}
+                    if (state == 0) { return RawOp{how == 0 ? std::uint32_t{N_RESET} : std::uint32_t{N_C_NULLOPT}, 0, 0, target}; }
+                    if (state == 1) { return RawOp{how == 0 ? std::uint32_t{N_EMPLACE} : std::uint32_t{N_C_INPLACE}, 0, 0, target}; }
+                    return RawOp{how == 0 ? std::uint32_t{N_EMPLACE} : std::uint32_t{N_C_INPLACE}, 1, 0, ((state - 2) << 1) | target};
+                }
                 if (cfg.ref) {
                     if (state == 0) { return RawOp{how == 0 ? std::uint32_t{R_RESET} : std::uint32_t{R_C_NULLOPT}, 0, 0, target}; }
                     return RawOp{how == 0 ? std::uint32_t{R_EMPLACE} : std::uint32_t{R_C_LVALUE}, state - 1, 0, target};
@@ -945,7 +1357,7 @@ void vf_run(vf::Ctx& c)
                                             k.ops.pop_back();
                                         }
                                     } else {
-                                        k.ops.push_back(RawOp{cfg.ref ? std::uint32_t{R_Q_REL_SAME} : std::uint32_t{Q_REL_SAME}, 0, 0, 0});
+                                        k.ops.push_back(RawOp{cfg.nest ? std::uint32_t{N_Q_REL_SAME} : cfg.ref ? std::uint32_t{R_Q_REL_SAME} : std::uint32_t{Q_REL_SAME}, 0, 0, 0});
                                         exec(k);
                                         k.ops.pop_back();
                                     }
